@@ -68,6 +68,26 @@ impl CKBProtocolHandler for SyncProtocol {
         match message {
             packed::SyncMessageUnionReader::SendBlock(reader) => {
                 let new_block = reader.to_entity().block();
+                // Only the header of a matched block is proved, so the body has to be checked
+                // against the header before it is filtered.
+                {
+                    let block_view = new_block.clone().into_view_without_reset_header();
+                    if block_view.transactions_root() != block_view.calc_transactions_root()
+                        || block_view.proposals_hash() != block_view.calc_proposals_hash()
+                        || block_view.extra_hash() != block_view.calc_extra_hash().extra_hash()
+                    {
+                        warn!(
+                            "SyncProtocol.received a block whose body doesn't match its header from Peer({})",
+                            peer
+                        );
+                        nc.ban_peer(
+                            peer,
+                            BAD_MESSAGE_BAN_TIME,
+                            String::from("send us a block whose body doesn't match its header"),
+                        );
+                        return;
+                    }
+                }
                 let mut matched_blocks = self.peers.matched_blocks().write().expect("poisoned");
                 self.peers.add_block(&mut matched_blocks, new_block);
 
